@@ -6,6 +6,7 @@ import time
 
 import numpy
 
+import ECAgent.Batching as _B
 from ECAgent.Collectors import Collector
 from ECAgent.Core import Model, System
 
@@ -158,6 +159,27 @@ SPECIAL_NAMES = ["max_timesteps", "model_cls", "collectors", "processes", "repet
                  "model", "score_func", "timesteps"]
 
 
+class InnerCollector(Collector):
+    def collect(self):
+        self.records.append(("inner", self.model.q, self.model.systems.timestep))
+
+
+class InnerModel(Model):
+    """A small model that an execution of the outer batch runs as a batch of its own (a "model of models")."""
+
+    def __init__(self, q):
+        super().__init__(seed=2)
+        self.q = q
+        self.systems.add_system(InnerCollector("inner", self))
+
+
+def run_inner_batch():
+    got = _B.batch_run(InnerModel, {"q": [1, 2, 3]}, "inner", processes=1, max_timesteps=2)
+    want = [[("inner", q, 0), ("inner", q, 1)] for q in (1, 2, 3)]
+    if [list(map(tuple, r)) for r in got] != want:
+        raise BatchFailure(f"the inner batch returned {got!r}")
+
+
 class BatchModel(Model):
     def __init__(self, **params):
         super().__init__(seed=1)       # never OS entropy inside the harness: every run must replay exactly
@@ -178,6 +200,8 @@ class BatchModel(Model):
                 self.fail_me = self.sig == f["sig"]
             if self.fail_me and f.get("where") == "ctor":
                 raise_injected(self, f"injected failure constructing {self.sig}")
+        if CONFIG.get("nested_batches") and sum(ord(c) for c in self.sig) % 2 == 0:
+            run_inner_batch()          # re-entrancy: this execution runs a serial batch of another model class
         if CONFIG.get("shadow_timestep") is not None:
             self.timestep = CONFIG["shadow_timestep"]      # a user attribute that happens to be called `timestep` (e.g. a dt)
         self.systems.add_system(Stopper(self))
@@ -204,6 +228,7 @@ def score_fn(model):
     elif CONFIG.get("numpy_scores") and isinstance(v, int) and -2 ** 62 < v < 2 ** 62:
         v = numpy.int64(v)           # what e.g. numpy.sum over an integer array returns
     model.entry["scored"] = True
+    model.entry["running_when_scored"] = bool(model.is_running())     # the score function sees the model as the run left it
     return v
 
 
